@@ -13,7 +13,7 @@ ASSUMPTIONS = [
     "rdflib Graph.serialize, XMLWriter.__str__) are stubs that either return a fixed text or raise (one symbolic fault bit): what they produce is the business of "
     "C01/C02/C10, C07 is about ordering; replay uses real files in a temporary directory and real faults (NUL text for XML, a generator object as attribute "
     "for JSON/YAML, an unsupported rdf_format for RDF)",
-    "C07: documents: fixed two-level tree (s0 > p0, p1; s1 > s2 > p2) with a symbolic Section type and name (length <= 1; the empty type is the missing type) and "
+    "C07: documents: fixed two-level tree (s0 > p0, p1, s2 > p2; s1 > p3) with a symbolic Section type and name (length <= 1; the empty type is the missing type) and "
     "one planted defect: shared id between any two objects, duplicate sibling Section name/type, duplicate Property name, or a warning-only condition",
     "C07: whether a document 'has a validation error' is decided by the independent rule reference of C08, not by the library",
     "C07: outside: partial writes after a successful open (write failing mid-way), the real file system's own failure modes",
@@ -30,10 +30,11 @@ def build(v):
     s0 = odml.Section(name="s0", type="t", parent=doc)
     p0 = odml.Property(name="p0", values=[1], parent=s0)
     p1 = odml.Property(name="p1", values=["a"], parent=s0)
-    s1 = odml.Section(name="s1", type="t", parent=doc)
-    s2 = odml.Section(name="s2", type="t", parent=s1)
+    s2 = odml.Section(name="s2", type="t", parent=s0)
     p2 = odml.Property(name="p2", values=[2], parent=s2)
-    objs = [doc, s0, p0, p1, s1, s2, p2]
+    s1 = odml.Section(name="s1", type="t", parent=doc)
+    p3 = odml.Property(name="p3", values=[3], parent=s1)
+    objs = [doc, s0, p0, p1, s2, p2, s1, p3]
     defect = v.choice("defect", 7)
     if defect == 1:
         # symbolic type on a symbolic Section: the empty string is the missing type
@@ -229,7 +230,7 @@ def check_save(v, doc, objs, backend, kwargs, fault, preexisting):
 
 @obligation("C07", "save", shards=8, budget={"quick": 400, "thorough": 1200},
             expect=["raised", "refused-invalid", "written", "warned"],
-            bounds="two-level document with one planted defect (symbolic Section type incl. empty, shared id between any two of the 7 objects, duplicate sibling "
+            bounds="two-level document with one planted defect (symbolic Section type incl. empty, shared id between any two of the 8 objects, duplicate sibling "
                    "names via symbolic strings, warning-only conditions, none) x back end (XML plain/local_style, JSON, YAML, RDF with format xml/turtle/unsupported; "
                    "one per shard) x serialiser fault x target absent/present x file name with/without extension")
 def save_ob(v):
